@@ -47,6 +47,12 @@ fn base_fields(slot: Slot) -> Vec<Field> {
 /// A section of exactly `target` bytes (RFC size) for the slot, or None if the base is larger.
 /// `by_adding`: reach the size with an extra field (exercises the +32) instead of stretching one.
 fn section_of_size(slot: Slot, target: u64, by_adding: bool) -> Option<Vec<Field>> {
+    section_of_size_n(slot, target, by_adding, "p")
+}
+
+/// The same with the name of the added field given (a name of the QPACK static table lets the section be sent
+/// with static name references).
+fn section_of_size_n(slot: Slot, target: u64, by_adding: bool, name: &str) -> Option<Vec<Field>> {
     let mut fields = base_fields(slot);
     let base = section_size(&fields);
     if target < base {
@@ -58,15 +64,16 @@ fn section_of_size(slot: Slot, target: u64, by_adding: bool) -> Option<Vec<Field
     let extra = target - base;
     if by_adding || fields.is_empty() {
         // one more field "p": value: needs extra >= 33
-        if extra < 33 {
+        let min = 32 + name.len() as u64;
+        if extra < min {
             return None;
         }
-        fields.push(f("p", &vec![b'v'; (extra - 33) as usize]));
+        fields.push(f(name, &vec![b'v'; (extra - min) as usize]));
         Some(fields)
     } else {
         // stretch the last value
         let last = fields.last_mut().unwrap();
-        let fill = if last.0 == b":status" { return section_of_size(slot, target, true) } else { b'a' };
+        let fill = if last.0 == b":status" { return section_of_size_n(slot, target, true, name) } else { b'a' };
         last.1.extend(std::iter::repeat(fill).take(extra as usize));
         Some(fields)
     }
@@ -84,6 +91,9 @@ pub struct RecvCase {
     pub peer_limit: Option<u64>,
     /// client slots: the request goes through a CLONE of the SendRequest handle (a documented use)
     pub via_clone: bool,
+    /// the peer sends every field line in its best static-table representation (indexed, or a literal with a
+    /// static name reference) instead of as a literal with a literal name
+    pub static_repr: bool,
 }
 
 #[derive(Debug, Clone, Default, PartialEq, Eq)]
@@ -167,7 +177,7 @@ pub fn recv_run(case: &RecvCase) -> RecvOutcome {
                     yield_now().await;
                 }
             }
-            let section = rq::encode_literal_section(&case.fields, false);
+            let section = if case.static_repr { rq::encode_static_section(&case.fields, false) } else { rq::encode_literal_section(&case.fields, false) };
             let mut bytes = Vec::new();
             match case.slot {
                 Slot::Request | Slot::Response => bytes.extend(rf::frame(rf::HEADERS, &section)),
@@ -724,7 +734,7 @@ pub fn run(args: &Args) -> i32 {
     let thorough = args.tier == Tier::Thorough;
     let mut rep = Report::new("C10", args.tier, args.seed, "model_checking");
     rep.exhaustive = true;
-    rep.rule = "receive (the limit is configured first and every other builder setter is called after it with its default value): limits {0, 1, 33, 34, 35, 64, 89, 100, 167, 16383, 2^62-1} x sections whose RFC size sweeps L-2..L+2 (built by stretching one value and by adding a field, so the per-field +32 is exercised) plus the empty and the minimal section, reference-encoded (literal representations) and injected by a scripted peer as request headers, response headers, request trailers, response trailers (client side: through the original SendRequest handle and through a clone of it); the 431 path with the client advertising {nothing, 41, 42, 43}. send: the same limits advertised by a scripted peer x application sections sweeping L-2..L+2 x {send_request, send_response, request trailers, response trailers} x SETTINGS delivered {before the stream exists (and applied), after the stream exists but before the attempt (and applied), while send_request is parked waiting for stream credit (and applied before the credit comes), after a first request of the connection has been answered (the attempt is made on a second request), together with the request before the server first looks at the connection (request answered inline, accept() not polled again before the answer), after the attempt, never}; every size also reached with a cookie field of three cookie-pairs (which a sender may split into one field line per pair); every HEADERS frame on the wire is decoded and measured by refimpl. states = distinct cases; non-trivial = cases at distance <= 2 from the limit.".into();
+    rep.rule = "receive (the limit is configured first and every other builder setter is called after it with its default value): limits {0, 1, 33, 34, 35, 64, 89, 100, 167, 16383, 2^62-1} x sections whose RFC size sweeps L-2..L+2 (built by stretching one value and by adding a field, so the per-field +32 is exercised) plus the empty and the minimal section, reference-encoded (literal representations; and again with the added field named `age`, a name of the QPACK static table, every line in its best static-table representation - indexed or literal with a static name reference) and injected by a scripted peer as request headers, response headers, request trailers, response trailers (client side: through the original SendRequest handle and through a clone of it); the 431 path with the client advertising {nothing, 41, 42, 43}. send: the same limits advertised by a scripted peer x application sections sweeping L-2..L+2 x {send_request, send_response, request trailers, response trailers} x SETTINGS delivered {before the stream exists (and applied), after the stream exists but before the attempt (and applied), while send_request is parked waiting for stream credit (and applied before the credit comes), after a first request of the connection has been answered (the attempt is made on a second request), together with the request before the server first looks at the connection (request answered inline, accept() not polled again before the answer), after the attempt, never}; every size also reached with a cookie field of three cookie-pairs (which a sender may split into one field line per pair); every HEADERS frame on the wire is decoded and measured by refimpl. states = distinct cases; non-trivial = cases at distance <= 2 from the limit.".into();
     rep.assumptions = vec![
         "refimpl::fields::section_size = sum(name + value + 32) (RFC 9114 4.2.2)".into(),
         "the smallest request h3 delivers (CONNECT + :authority) has size 89: smaller limits are exercised at the boundary through trailers (regular fields only) and with always-oversize heads".into(),
@@ -748,12 +758,17 @@ pub fn run(args: &Args) -> i32 {
             sizes.dedup();
             for s in sizes {
                 for by_adding in [false, true] {
+                    // the same size reached with a field whose NAME is in the static table ("age"), every line sent in its
+                    // best static representation: the size counted is that of the field received, not of the table entry
+                    if let Some(fields) = section_of_size_n(slot, s, by_adding, "age") {
+                        rcases.push(RecvCase { slot, limit: l, fields, peer_limit: None, via_clone: false, static_repr: true });
+                    }
                     if let Some(fields) = section_of_size(slot, s, by_adding) {
                         let peers: &[Option<u64>] = if slot == Slot::Request { &[None, Some(41), Some(42), Some(43)] } else { &[None] };
                         for &p in peers {
-                            rcases.push(RecvCase { slot, limit: l, fields: fields.clone(), peer_limit: p, via_clone: false });
+                            rcases.push(RecvCase { slot, limit: l, fields: fields.clone(), peer_limit: p, via_clone: false, static_repr: false });
                             if matches!(slot, Slot::Response | Slot::ResponseTrailers) {
-                                rcases.push(RecvCase { slot, limit: l, fields: fields.clone(), peer_limit: p, via_clone: true });
+                                rcases.push(RecvCase { slot, limit: l, fields: fields.clone(), peer_limit: p, via_clone: true, static_repr: false });
                             }
                         }
                     }
@@ -768,7 +783,7 @@ pub fn run(args: &Args) -> i32 {
         acc.transitions += 8;
         let size = section_size(&c.fields);
         let mut h = Fnv::new();
-        h.str(&format!("{:?}{}{}{:?}{}", c.slot, c.limit, size, c.peer_limit, c.fields.len()));
+        h.str(&format!("{:?}{}{}{:?}{}", c.slot, c.limit, size, c.peer_limit, c.fields.len() + 100 * c.static_repr as usize));
         acc.states.insert(h.finish());
         if (size as i128 - c.limit as i128).abs() <= 2 {
             acc.nontrivial.insert(h.finish());
@@ -778,7 +793,7 @@ pub fn run(args: &Args) -> i32 {
         h.u64(has_431(&o.wire) as u64);
         acc.outcomes.insert(h.finish());
         for (sig, msg) in judge_recv(c, &o) {
-            acc.violation(sig, msg, (0, c.fields.len()), || json!({"kind":"recv","slot":format!("{:?}", c.slot),"limit":c.limit.to_string(),"peer_limit":c.peer_limit.map(|p| p.to_string()),"via_clone":c.via_clone,"fields":c.fields.iter().map(|(n,v)| json!([hex(n),hex(v)])).collect::<Vec<_>>()}));
+            acc.violation(sig, msg, (0, c.fields.len()), || json!({"kind":"recv","slot":format!("{:?}", c.slot),"limit":c.limit.to_string(),"peer_limit":c.peer_limit.map(|p| p.to_string()),"via_clone":c.via_clone,"static_repr":c.static_repr,"fields":c.fields.iter().map(|(n,v)| json!([hex(n),hex(v)])).collect::<Vec<_>>()}));
         }
     });
     let mut scases: Vec<SendCase> = Vec::new();
@@ -864,6 +879,7 @@ pub fn replay(r: &Value) -> i32 {
                 limit: r["limit"].as_str().unwrap().parse().unwrap(),
                 peer_limit: r["peer_limit"].as_str().map(|s| s.parse().unwrap()),
                 via_clone: r["via_clone"].as_bool().unwrap_or(false),
+                static_repr: r["static_repr"].as_bool().unwrap_or(false),
                 fields: r["fields"].as_array().unwrap().iter().map(|p| (explore::unhex(p[0].as_str().unwrap()), explore::unhex(p[1].as_str().unwrap()))).collect(),
             };
             let o = recv_run(&case);
